@@ -202,6 +202,15 @@ func TestOctreeLosesNothing(t *testing.T) {
 				return
 			}
 		}
+		// the (unpruned) lattice must cover the bounding box, otherwise geometry near its far faces is lost
+		// in both runs alike and the comparison below cannot see it
+		{
+			ax := lat.AxesOf3(scaled.Pts, 1e-9*res)
+			if e := 1e-9 * res; ax.X[0] > bb.Min.X+e || ax.Y[0] > bb.Min.Y+e || ax.Z[0] > bb.Min.Z+e ||
+				ax.X[len(ax.X)-1] < bb.Max.X-e || ax.Y[len(ax.Y)-1] < bb.Max.Y-e || ax.Z[len(ax.Z)-1] < bb.Max.Z-e {
+				rec.Violation(t, "MarchingCubesOctree:lattice-does-not-cover-bounding-box", "%d cells, scene [%s] %s: finest-level lattice spans %v..%v, bounding box %v", cells, kind, desc, v3.Vec{X: ax.X[0], Y: ax.Y[0], Z: ax.Z[0]}, v3.Vec{X: ax.X[len(ax.X)-1], Y: ax.Y[len(ax.Y)-1], Z: ax.Z[len(ax.Z)-1]}, bb)
+			}
+		}
 		nb, ns := distinct3(base.Pts), distinct3(scaled.Pts)
 		kb, ks := triKeys(tb), triKeys(tsc)
 		same := len(kb) == len(ks)
@@ -329,6 +338,12 @@ func TestQuadtreeLosesNothing(t *testing.T) {
 				rec.Count("not-comparable:value-inside-scaled-epsilon", 1)
 				rec.Case(false, "", "not-comparable")
 				return
+			}
+		}
+		{
+			ax := lat.AxesOf2(scaled.Pts, 1e-9*res)
+			if e := 1e-9 * res; ax.X[0] > bb.Min.X+e || ax.Y[0] > bb.Min.Y+e || ax.X[len(ax.X)-1] < bb.Max.X-e || ax.Y[len(ax.Y)-1] < bb.Max.Y-e {
+				rec.Violation(t, "MarchingSquaresQuadtree:lattice-does-not-cover-bounding-box", "%d cells, scene [%s] %s: finest-level lattice spans %v..%v, bounding box %v", cells, kind, desc, v2.Vec{X: ax.X[0], Y: ax.Y[0]}, v2.Vec{X: ax.X[len(ax.X)-1], Y: ax.Y[len(ax.Y)-1]}, bb)
 			}
 		}
 		nb, ns := distinct2(base.Pts), distinct2(scaled.Pts)
